@@ -12,7 +12,7 @@ TABLE = {
        "only_use_keys_in_metadata`, that an empty list raises before the "
        "verifier, that the issuer looked up is the element's own, the default "
        "and plumbing of the setting, and the use/entity filter of "
-       "MetaData.certs. No cryptography, no federation documents. R6 evaluates the KeyDescriptor use filter of MetaData.certs in the three cases use absent / equal / different (abstract evaluation, nothing executed): a key of a different use never reaches the accept site, a key of the requested use does. R7: no certificate/key lookup result is remembered under a key that omits a parameter it depends on (memoisation-key completeness, with an embedded positive control).",
+       "MetaData.certs. No cryptography, no federation documents. R6 evaluates the KeyDescriptor use filter of MetaData.certs in the three cases use absent / equal / different (abstract evaluation, nothing executed): a key of a different use never reaches the accept site, a key of the requested use does. R7: no certificate/key lookup result is remembered under a key that omits a parameter it depends on (memoisation-key completeness, with an embedded positive control). R8: no positional argument of the signature-checking calls is bound to a parameter other than the one it is named after (issuer / only_valid_cert slots).",
   ref="Part 3 C03"),
  "C04": dict(
   tech="linear normal forms of comparisons (symbols bound by def-use, helper "
@@ -48,7 +48,7 @@ TABLE = {
        "that status_ok and the version assertion lie on every path to "
        "acceptance and dominate identity extraction, and that nothing on the "
        "way swallows the error. Behaviour on garbage version strings at run "
-       "time is not decided. When STATUSCODE2EXCEPTION is computed rather than written as a literal its entries are read from the imported module (top level only) and compared with the samlp constants. R6: Entity._parse_response returns a response only after a verify() call on it completed normally.",
+       "time is not decided. When STATUSCODE2EXCEPTION is computed rather than written as a literal its entries are read from the imported module (top level only) and compared with the samlp constants. R6: Entity._parse_response returns a response only after a verify() call on it completed normally. R7: on the request side, what Entity._parse_request hands back is the result of Request.verify() (Version / IssueInstant / Destination), not the loaded object (C10.R1 re-evaluated here).",
   ref="Part 3 C06"),
  "C07": dict(
   tech="typestate over the CFG (normal and exceptional paths separately), "
@@ -60,7 +60,7 @@ TABLE = {
        "Policy.filter returns a filtered copy and always applies configured "
        "attribute_restrictions, and the error branch. Two genuine violations "
        "are recorded as known findings. Regex semantics and entity-category "
-       "contents are not decided. Policy.filter: the unfiltered copy is assigned only under `_ava is None` once a filter stage may have run. R6: a composite (tuple) entity-category key releases its attributes only if every member category is among the SP's. R7: mdstore.attribute_requirement consults every AttributeConsumingService; only an explicit index narrows.",
+       "contents are not decided. Policy.filter: the unfiltered copy is assigned only under `_ava is None` once a filter stage may have run. R6: a composite (tuple) entity-category key releases its attributes only if every member category is among the SP's. R7: mdstore.attribute_requirement consults every AttributeConsumingService; only an explicit index narrows. R3 additionally: every round of the value-restriction loop ends in deleting the attribute, replacing its values by the matching ones (built from the matches only) or `no value restriction`. R8: no call modifies an object the next call starts from (mutable defaults, shallow copies of module-level templates).",
   ref="Part 3 C07"),
  "C09": dict(
   tech="derivation of returned destinations, equality-guard recognition, "
@@ -71,7 +71,7 @@ TABLE = {
        "that the fallthrough raises and UnknownSystemEntity is never caught, "
        "that the entity consulted is the request Issuer, that response_args "
        "uses only pick_binding's answer, and the store-side "
-       "unknown/unsupported/binding-filter logic. R5: every typed accessor of the store asks service() for the caller's binding (or the documented default) and lets its refusal propagate.",
+       "unknown/unsupported/binding-filter logic. R5: every typed accessor of the store asks service() for the caller's binding (or the documented default) and lets its refusal propagate. R6: Server.verify_assertion_consumer_service answers True only under an equality of the requested URL/index itself with a value read from the requester's registered consumer services (no comparison of normalised or partial forms).",
   ref="Part 3 C09"),
  "C10": dict(
   tech="dominance/flag-sensitive pipeline rule, derivation of must and "
@@ -101,7 +101,7 @@ TABLE.update({
        "the opt-in pyXMLSecurity backend; all 1143 generated *_from_string "
        "functions go through create_class_from_xml_string; no parse function "
        "swallows a parser error. What libxml2 inside xmlsec1 does and parser "
-       "behaviour on concrete hostile documents are not decided. R6: no incremental parse (iterparse/pull parser) whose consuming loop can be left before the input is exhausted. R7: every inbound parse call receives the function's own text argument, at most re-encoded (no slicing, regex extraction or rewriting before the parse).",
+       "behaviour on concrete hostile documents are not decided. R6: no incremental parse (iterparse/pull parser) whose consuming loop can be left before the input is exhausted. R7: every inbound parse call receives the function's own text argument, at most re-encoded (no slicing, regex extraction or rewriting before the parse). R5 treats ValueError (the base class of the defusedxml refusals) as a parser error class and inspects every handler of the hand-written modules that wraps a parse call.",
   ref="Part 3 C11"),
  "C12": dict(
   tech="schema-table reflection (import of the schema modules in a child "
@@ -113,7 +113,7 @@ TABLE.update({
        "constructor chain assigns every member, that the module maps agree "
        "with the classes, and that the generic reader and writer in "
        "SamlBase/ExtensionContainer use the same six channels. Equality of "
-       "arbitrary instance trees and byte stability are not decided. Writer: a declared attribute is written whenever the member is not None (the only value guard). The received attribute name / child element is looked up and stored unchanged (no re-binding of the key).",
+       "arbitrary instance trees and byte stability are not decided. Writer: a declared attribute is written whenever the member is not None (the only value guard). The received attribute name / child element is looked up and stored unchanged (no re-binding of the key). E4: the foreign-content reader stores every child element as it is met, in a loop over the parsed element, unconditionally, and keeps attributes and text. E5: shared-state rule for the element engine.",
   ref="Part 3 C12"),
  "C13": dict(
   tech="schema-table reflection + exhaustive type-name/cardinality rules, "
@@ -126,7 +126,7 @@ TABLE.update({
        "text), delegation of the five verify() overrides, that the checked "
        "simple-type validators can fail and are wired into VALIDATOR, and "
        "validation on the receive paths. Value-level conformance of arbitrary "
-       "strings is not decided. V8: memoisation keys in validate.py are complete; V9: the constructor default of every required attribute of every schema class is None.",
+       "strings is not decided. V8: memoisation keys in validate.py are complete; V9: the constructor default of every required attribute of every schema class is None. V10: parse_duration dereferences the current position in every round before the designator loop can be left, which is what refuses a duration that ends right after the 'P'.",
   ref="Part 3 C13"),
  "C14": dict(
   tech="classified template inventory, sanitiser (html.escape) check on every "
@@ -139,7 +139,7 @@ TABLE.update({
        "and unravel choose inverse codecs per binding, that the raw-DEFLATE "
        "encoder/decoder agree, and SOAP embedding/expected-tag/decoder "
        "coverage. Byte identity for all strings and browser parsing are not "
-       "decided.",
+       "decided. S2: no decode/packaging call modifies an object that survives the call (mutable default arguments, nested objects of module-level templates reached through shallow copies), with an embedded positive control.",
   ref="Part 3 C14"),
  "C15": dict(
   tech="ownership analysis of module-level object containers (attribute "
@@ -164,7 +164,7 @@ TABLE.update({
        "unknown/unsupported/binding filter, entity isolation and key-use "
        "filter, and whether every caller acts on the signature verdict. "
        "Three genuine violations are recorded as known findings. Exactness "
-       "for arbitrary federation documents is not decided. M7 (generation side of the round trip): do_key_descriptor emits one KeyDescriptor per configured certificate under the use it is configured for, unconditionally within its loop. M8: memoisation keys complete in mdstore/metadata/config; M9: no misplaced positional argument when the store is built and loaded.",
+       "for arbitrary federation documents is not decided. M7 (generation side of the round trip): do_key_descriptor emits one KeyDescriptor per configured certificate under the use it is configured for, unconditionally within its loop. M8: memoisation keys complete in mdstore/metadata/config; M9: no misplaced positional argument when the store is built and loaded. M10: do_endpoints publishes a configured endpoint index unchanged and uses the running counter only under a presence test (0 is a legal index). M2/M6 compare the validity tests, duplicate test and commit key with temporaries expanded.",
   ref="Part 3 C16"),
  "C17": dict(
   tech="statement-order rule in the common block, move-not-copy check, "
@@ -176,7 +176,7 @@ TABLE.update({
        "response, that decrypted assertions pass _assertion and signature "
        "checks, and whether load-time checks are repeated for decrypted "
        "assertions (one genuine violation recorded). Ciphertext contents and "
-       "key matching are not decided. R7: a KeyDescriptor without use is returned for every requested use and the encryption lookups ask for use 'encryption'; R8: the key an assertion is encrypted for derives on every call from encrypt_cert or metadata.certs(sp_entity_id) only, never from state kept on the entity.",
+       "key matching are not decided. R7: a KeyDescriptor without use is returned for every requested use and the encryption lookups ask for use 'encryption'; R8: the key an assertion is encrypted for derives on every call from encrypt_cert or metadata.certs(sp_entity_id) only, never from state kept on the entity. R9: in Entity._response the decision whether the advice assertion is encrypted is examined on every path to a normal return (a /repo fix: commit repaired the early return that skipped it).",
   ref="Part 3 C17"),
  "C18": dict(
   tech="who-may-write ownership of the identifier map, pairing checks of "
@@ -189,7 +189,7 @@ TABLE.update({
        "quoted, new ids derive from fresh randomness with a collision retry, "
        "persistent lookup precedes issue and compares both qualifiers, the "
        "manage-name-id sequence, no undefined names. Histories and run-time "
-       "uniqueness are not decided. R7: a NameID mapping request returns a stored identifier only under equality of format and SPNameQualifier with the request's policy. R8: find_nameid returns an identifier only if every criterion matches; code() encodes each field unchanged (one-to-one).",
+       "uniqueness are not decided. R7: a NameID mapping request returns a stored identifier only under equality of format and SPNameQualifier with the request's policy. R8: find_nameid returns an identifier only if every criterion matches; code() encodes each field unchanged (one-to-one). R1 additionally: a failing entry in remove_local never ends the removal without deleting the user's own record. R9: shared-state rule for the identifier database.",
   ref="Part 3 C18"),
  "C19": dict(
   tech="derivation of every index into Cache._db, dominance of the expiry "
@@ -199,7 +199,7 @@ TABLE.update({
        "code(name_id) of the method's own subject, that get() returns only "
        "after the expiry test and set()/get() agree on the stored tuple, that "
        "expired/empty sources cannot reach the merge, delete/reset shapes and "
-       "backend neutrality. Histories and shelve semantics are not decided. reset() stores the empty, expired record on every normal path. The cache key function code() is one-to-one; memoisation keys in cache/ident/population are complete.",
+       "backend neutrality. Histories and shelve semantics are not decided. reset() stores the empty, expired record on every normal path. The cache key function code() is one-to-one; memoisation keys in cache/ident/population are complete. R8: shared-state rule for the cache modules.",
   ref="Part 3 C19"),
  "C20": dict(
   tech="flag-sensitive shape rules on _run_xmlsec / parse_xmlsec_output / "
